@@ -24,7 +24,13 @@ EVIDENCE_DIR = ROOT / 'evidence'
 REPLAY_DIR = ROOT / 'replays'
 SCRATCH_DIR = ROOT / '.scratch'
 KNOWN_FINDINGS = ROOT / 'KNOWN_FINDINGS.txt'
-REPO = Path('/repo')
+# KPVERIF_REPO: evaluate the checks against another source tree (seeded-change trials only; the registered
+# commands never set it).  Evidence and replays of such runs go to .scratch so that committed evidence stays /repo's.
+REPO = Path(os.environ.get('KPVERIF_REPO', '/repo'))
+if 'KPVERIF_REPO' in os.environ:
+    _tag = os.environ.get('KPVERIF_TAG', 'alt')
+    EVIDENCE_DIR = SCRATCH_DIR / f'evidence-{_tag}'
+    REPLAY_DIR = SCRATCH_DIR / f'replays-{_tag}'
 
 
 def h(*parts) -> str:
@@ -228,7 +234,7 @@ class Ctx:
             self.inconc('no oracle evaluation was performed')
         wall = time.time() - self.t0
         head, dirty = repo_state()
-        REPLAY_DIR.mkdir(exist_ok=True)
+        REPLAY_DIR.mkdir(parents=True, exist_ok=True)
         lines = []
         viol_summ = []
         for key, v in sorted(self.violations.items()):
@@ -280,7 +286,7 @@ class Ctx:
             'violations': sum(v['count'] for v in self.violations.values()),
         }
         if not self.replay and self.shard is None:
-            EVIDENCE_DIR.mkdir(exist_ok=True)
+            EVIDENCE_DIR.mkdir(parents=True, exist_ok=True)
             (EVIDENCE_DIR / f'{self.pid}.json').write_text(
                 json.dumps(evidence, indent=1, ensure_ascii=False, default=str) + '\n', encoding='utf-8')
         for ln in lines:
